@@ -15,6 +15,8 @@ template<typename... T> struct T1 {}; template<typename... T> struct T2 {}; temp
 template<typename A, typename B> struct Pair {};
 template<typename... T> using twice = types<Pair<T...>, Pair<T...>>;          // F for transform_product (2 lists)
 template<typename... T> using one = types<T1<T...>>;
+template<typename... T> using twice_ml = boost::mp11::mp_list<Pair<T...>, Pair<T...>>;   // F returning another list kind
+template<typename... T> using twice_tu = std::tuple<Pair<T...>, Pair<T...>>;
 struct A { virtual ~A() {} }; struct B : A {}; struct C : A {};
 struct key1; struct key2;
 using M = method<key1, int(virtual_<A&>, virtual_<A&>)>;
@@ -75,6 +77,10 @@ def product_unit(tier):
             # an empty product: any empty list will do (mp_append of nothing is mp_list<>); the property does not fix the list template
             code = "static_assert(boost::mp11::mp_empty<transform_product<twice, %s>>::value);" % lists
         u.add("transform_product|%s" % "x".join(map(str, lens)), "transform_product concatenates F<combo> over the product of lists %s" % (lens,), code)
+        if items:
+            for fn, lkind in (("twice_ml", "boost::mp11::mp_list"), ("twice_tu", "std::tuple")):
+                u.add("transform_product|%s|%s" % ("x".join(map(str, lens)), fn), "transform_product concatenates the elements of whatever list kind F returns (%s), lists %s" % (lkind, lens),
+                      "static_assert(std::is_same_v<transform_product<%s, %s>, %s<%s>>);" % (fn, lists, lkind, ", ".join(items)))
     return u
 
 
